@@ -222,8 +222,11 @@ def _cat(path):
 ROOT_FREE = ("statistics", "diagonal_statistics", "avg_grad", "count", "exponents")
 
 
-def _kappa(stats, eps):
-    """worst condition number of the ridge-regularised statistics (the conditioning factor of TOL)."""
+def _kappa(stats, eps, compressed=False):
+    """conditioning factor of TOL for one list of statistics: worst condition number of the ridge-regularised
+    statistics; for low-rank (compressed / frequent-directions) preconditioners, which store individual eigenvectors,
+    also the worst relative eigenvalue gap lambda_max / min_i (lambda_{i+1} - lambda_i): a (near-)degenerate
+    eigenvalue makes the stored eigenvector arbitrary within its eigenspace (C10's "numerical subspace separation")."""
     import numpy as np
     k = 1.0
     for S in stats:
@@ -238,7 +241,17 @@ def _kappa(stats, eps):
             k = max(k, (lmax + ridge) / (lmin + ridge))
         elif lmax > 0:
             k = float("inf")
+        if compressed and len(w) > 1 and lmax > 0:
+            gap = float(np.min(np.diff(w)))
+            k = max(k, lmax / gap) if gap > 0 else float("inf")
     return k
+
+
+def _conds(stats_by_param, eps, compressed):
+    """parameter name -> conditioning factor; "_max" for leaves that belong to no single parameter."""
+    out = {n: _kappa(ss, eps, compressed) for n, ss in stats_by_param.items()}
+    out["_max"] = max(out.values(), default=1.0)
+    return out
 
 
 def _tol(cat, kappa):
@@ -285,6 +298,10 @@ def _cmp_leaf(cat, a, b, kappa, slack=1.0):
     d = float(np.linalg.norm(a64 - b64))
     rel = d / na if na > 0 else d
     tol = _tol(cat, kappa) * slack
+    if cat == "metrics.max_eigen_value":
+        # output of power iteration, a data-dependent loop with its own stopping tolerance (1e-6 on the iterate, slow
+        # when the two largest eigenvalues are close): observed 7e-6 between two device counts
+        tol = max(tol, 1e-3 * slack)
     _FRAC[0] = max(_FRAC[0], rel / tol)
     if rel <= tol:
         return ("weak" if tol > 1e-2 else "tol"), rel
@@ -385,7 +402,7 @@ def _pmap_record(opt, params, grads, D, names):
             precs[d] = [_dense(jax.tree.map(lambda x: np.asarray(x)[d], p)) for n in names for p in st.stats[n].preconditioners]
         errs = np.concatenate([np.asarray(st.stats[n].training_metrics.inverse_pth_root_errors)[0].reshape(-1) for n in names]) \
             if names else np.zeros(0)
-        rec.append({"flat": flat, "stats": [s for ss in stats for s in ss], "precs": precs, "errs": errs})
+        rec.append({"flat": flat, "stats": {n: ss for n, ss in zip(names, stats)}, "precs": precs, "errs": errs})
     return rec
 
 
@@ -400,7 +417,7 @@ def _jit_record(opt, params, grads):
     return rec
 
 
-def _compare_run(ref, cand, D, eps, thr, lead_ref, lead_cand, tally, skip_paths=None, slack=1.0):
+def _compare_run(ref, cand, D, eps, compressed, lead_ref, lead_cand, tally, skip_paths=None, slack=1.0):
     """ref/cand: records over steps. lead_*: whether the arrays carry a leading device axis.
     Returns (fails, first_flip_step). A Newton branch flip of one statistic excuses, from that step on, only the
     leaves of the parameter that owns it (and, in sharded mode, the global preconditioner rows); every other
@@ -414,9 +431,8 @@ def _compare_run(ref, cand, D, eps, thr, lead_ref, lead_cand, tally, skip_paths=
         if rp != cp:
             fails.append(f"step {t}: state layout differs ({len(rp)} vs {len(cp)} leaves)")
             return fails, flip_step
-        kappa = _kappa(r.get("stats", []), eps) if "stats" in r else tally.get("_kappa", {}).get(t, 1.0)
-        tally.setdefault("_kappa", {})[t] = kappa
-        tally["kappa_max"] = max(tally.get("kappa_max", 1.0), kappa if kappa != float("inf") else 1e300)
+        conds = _conds(r.get("stats", {}), eps, compressed)
+        tally["kappa_max"] = max(tally.get("kappa_max", 1.0), min(conds["_max"], 1e300))
         for d in range(D if lead_cand else 1):
             refl = [(p, (a[0] if lead_ref else a)) for p, a in r["flat"]]
             candl = [(p, (b[d] if lead_cand else b)) for p, b in c["flat"]]
@@ -436,9 +452,10 @@ def _compare_run(ref, cand, D, eps, thr, lead_ref, lead_cand, tally, skip_paths=
                 if skip_paths and skip_paths(p):
                     continue
                 cat = _cat(p)
+                owner = _param_of(p)
+                kappa = conds.get(owner, conds["_max"])
                 if excused:
-                    owner = _param_of(p)
-                    if owner in excused or "?" in excused or (owner is None and cat == "preconditioners"):
+                    if owner in excused or "?" in excused:
                         tally["excused_by_flip"] = tally.get("excused_by_flip", 0) + 1
                         continue
                 status, det = _cmp_leaf(cat, a, b, kappa, slack)
@@ -473,7 +490,7 @@ def _run_pmap_task(task):
     except Exception as e:  # noqa: BLE001
         out["baseline_error"] = _exc(e)
         return out
-    out["N_impl"] = len(base[-1]["stats"])
+    out["N_impl"] = sum(len(v) for v in base[-1]["stats"].values())
     out["accepted"] = int((base[-1]["errs"] < thr).sum()) if len(base[-1]["errs"]) else 0
     import numpy as np
     out["finite"] = bool(all(np.isfinite(a).all() for p, a in base[-1]["flat"] if a.dtype.kind == "f" and _cat(p) in ("update", "preconditioners")))
@@ -483,19 +500,18 @@ def _run_pmap_task(task):
         Ds = [0] + Ds
     for D in Ds:
         run = {"D": D}
-        tally = {"_kappa": {}}
+        tally = {}
         _FRAC[0] = 0.0
         try:
             if D == 0:
                 rec = _jit_record(_build(cfg, "replicated"), params, grads)
                 # the replicated program has no device axis; its metrics pytree is identical
-                tally["_kappa"] = {t: _kappa(base[t]["stats"], cfg["eps"]) for t in range(len(base))}
                 # a differently compiled whole program (no collectives): tolerances x10
-                fails, flip = _compare_run([{"flat": b["flat"], "stats": b["stats"]} for b in base], rec, 1, cfg["eps"], thr,
+                fails, flip = _compare_run([{"flat": b["flat"], "stats": b["stats"]} for b in base], rec, 1, cfg["eps"], bool(cfg["rank"]),
                                            True, False, tally, slack=10.0)
             else:
                 rec = _pmap_record(_build(cfg, "pmap"), params, grads, D, names)
-                fails, flip = _compare_run(base, rec, D, cfg["eps"], thr, True, True, tally)
+                fails, flip = _compare_run(base, rec, D, cfg["eps"], bool(cfg["rank"]), True, True, tally)
                 if not fails:
                     sm = {}
                     for d, P in rec[-1]["precs"].items():
@@ -507,7 +523,6 @@ def _run_pmap_task(task):
             run["error"] = _exc(e)
             out["runs"].append(run)
             continue
-        tally.pop("_kappa", None)
         tally["max_frac_of_tol"] = _FRAC[0]
         _FRAC[0] = 0.0
         run.update(fails=fails, flip=flip, tally=tally)
@@ -542,15 +557,23 @@ def _sharded_record(cfg, params, grads, names, npjit, meshD, N):
         info["index"] = [[int(l.index_start), len(l.sizes)] for l in loc]
         sizes = [int(s) for l in loc for s in l.sizes]
         info["sizes"] = sizes
+        owner = {}
+        for n, (i0, cnt) in zip(names, info["index"]):
+            for i in range(i0, i0 + cnt):
+                owner[i] = n
+        owner = [owner.get(i, "p999999") for i in range(max(N, 0))]
         upd = jax.jit(opt.update)
         for gr in grads:
             u, st = upd(gr, st, params)
             g = st.stats.global_stats
             S, Pm = np.asarray(g.statistics), np.asarray(g.preconditioners)
             flat = _flat(u, "U") + _flat(st.stats.local_stats, "S.local") + [("S.count", np.asarray(st.count))]
-            flat += [(f"S.global.statistics[{i}]", S[i]) for i in range(N)]
-            flat += [(f"S.global.preconditioners[{i}]", Pm[i]) for i in range(N)]
-            rec.append({"flat": flat, "stats": [S[i][:sizes[i], :sizes[i]] for i in range(min(N, len(sizes)))],
+            flat += [(f"S.global.statistics[{i}]['{owner[i]}']", S[i]) for i in range(N)]
+            flat += [(f"S.global.preconditioners[{i}]['{owner[i]}']", Pm[i]) for i in range(N)]
+            by_param = {}
+            for i in range(min(N, len(sizes))):
+                by_param.setdefault(owner[i], []).append(S[i][:sizes[i], :sizes[i]])
+            rec.append({"flat": flat, "stats": by_param,
                         "count": [int(S.shape[0]), int(Pm.shape[0]), int(np.asarray(g.exponents).shape[0])],
                         "exponents": [int(x) for x in np.asarray(g.exponents)],
                         "filler_identity": bool(all(np.array_equal(S[i], np.eye(S.shape[1], dtype=S.dtype)) for i in range(N, S.shape[0]))),
@@ -582,18 +605,17 @@ def _run_sharded_task(task):
     out["base_steps"] = [{k: r[k] for k in ("count", "exponents", "filler_identity", "filler_finite")} for r in base]
     for npjit, meshD in task["runs"]:
         run = {"npjit": npjit, "mesh": meshD}
-        tally = {"_kappa": {}}
+        tally = {}
         _FRAC[0] = 0.0
         try:
             rec, info = _sharded_record(cfg, params, grads, names, npjit, meshD, N)
-            fails, flip = _compare_run(base, rec, 1, cfg["eps"], 0.1, False, False, tally)
+            fails, flip = _compare_run(base, rec, 1, cfg["eps"], bool(cfg["rank"]), False, False, tally)
         except kit.InfraError:
             raise
         except Exception as e:  # noqa: BLE001
             run["error"] = _exc(e)
             out["runs"].append(run)
             continue
-        tally.pop("_kappa", None)
         tally["max_frac_of_tol"] = _FRAC[0]
         _FRAC[0] = 0.0
         run.update(fails=fails, flip=flip, tally=tally,
@@ -1058,7 +1080,7 @@ def run(ctx):
     ctx.assumptions += [
         "decision TOL: relative 1e-6 (Frobenius, per leaf) for leaves that do not pass through an inverse root (statistics, diagonal "
         "statistics, counters); 1e-6 * max(1, kappa) for root-dependent leaves, kappa = worst condition number of the ridge-regularised "
-        "statistics of that step (TOL(eps*kappa) of DESIGN 2.3); error metrics absolute 1e-4 * max(1, kappa/10); int16 payloads of quantized "
+        "statistics of the owning parameter at that step (TOL(eps*kappa) of DESIGN 2.3), for low-rank (compressed / frequent-directions) kinds also lambda_max / smallest eigenvalue gap (a degenerate eigenvalue makes the stored eigenvector arbitrary: observed 29% legit difference); error metrics absolute 1e-4 * max(1, kappa/10), the power-iteration estimate max_eigen_value relative 1e-3, final_error_ratio (a ratio of rounding-level errors) only recorded; int16 payloads of quantized "
         "leaves may differ by one unit (rounding boundary, counted); bitwise equality is recorded per leaf category in the distribution",
         "comparisons whose tolerance exceeds 1e-2 are counted as `weak`",
         "a Newton branch flip (iteration count / total_retries of a statistic differ between the two runs) excuses, from that step on, "
